@@ -17,8 +17,9 @@ var globalAssumptions = []string{
 	"library functions are represented by the hand-written specs in govc/calls.go (strings, strconv, fmt, sort, utf8, runewidth, filepath); unlisted library calls return arbitrary well-typed values and do not write the package heap except as listed in govc/modset.go",
 	"closed world: the implementers of package interfaces are the ones in the package; goroutines, channels and select are not modelled (functions using them are verified as sequential code)",
 	"nullability facts (verif_contracts_auto.go) are inferred by a Houdini pass and re-verified on every run; preconditions of exported entry points that no in-package call site constrains are assumptions on API callers; functions only called through function values get no inferred precondition; containers filled by reflection-based decoding get no inferred element facts",
-	"assumed about gopkg.in/yaml.v3: a mapping node has an even number of children, only sequence/mapping/document nodes have children, children are never nil (assume_inv / nonnil_elems lines of verif_contracts_parse.go)",
-	"pure spec functions stand for library results (index, hasprefix, toslash, abspath, recompile/rematch, globmatch, strwidth, jsonbad, exitcode, issorted, errtext): only the properties stated in govc/calls.go are known about them",
+	"assumed about gopkg.in/yaml.v3: a mapping node has an even number of children, only sequence/mapping/document nodes have children, children are never nil (assume_inv / nonnil_elems lines of verif_contracts_parse.go); a type that implements yaml.Unmarshaler is decoded only through its UnmarshalYAML method (nonnil_elems of the action / reusable-workflow metadata maps, verif_contracts_decode.go); Node.Decode into a struct with yaml tags: pointer field non-nil iff the key is present with a non-null value, bool / string fields are functions of node and key (yhas, ybool, ystr)",
+	"the file system is read as a function of the path within one run (statok, statdir for os.Stat; pathdir, pathjoin for filepath.Dir / Join); isanc (ancestor directory) is defined by the lemmas of verif_contracts_project.go; sort.Strings / sort.Ints change only the backing array of their argument and leave a permutation of its elements",
+	"pure spec functions stand for library results (index (also behind strings.Contains), hasprefix, toslash, abspath, pathdir, pathjoin, statok, statdir, recompile/rematch, globmatch, strwidth, jsonbad, exitcode, issorted, errtext, yhas/ybool/ystr): only the properties stated in govc/calls.go are known about them",
 	"obligations of the syntactic disciplines (forbid-call, loop-complete/nobreak/noreturn, format-const, map-order, shared-write, immutable-store, folded / nlfree) are never assumed after being checked; every function has an entry and an end vacuity probe",
 }
 
